@@ -128,6 +128,9 @@ fn gen_lifecycle_tx(rng: &mut Rng, w: &World, caller: Address) -> TxSpec {
             // change a slot (possibly back to zero / to its old value)
             tx.to = Some(child);
             tx.data = Bytes::from(vec![0, rng.below(4) as u8, *rng.pick(&[0u8, 0x42, 7])]);
+            if rng.chance(1, 3) {
+                tx.value = U256::from(rng.below(3));
+            }
         }
     }
     tx
